@@ -140,6 +140,12 @@ def main(argv):
     known_lines = []
     findings, fixed = load_known()
 
+    # stale replay files of this property are removed: a run reports only what it found itself
+    if not a.replay and os.path.isdir(os.path.join(EVID, "replay")):
+        for f in os.listdir(os.path.join(EVID, "replay")):
+            if f.startswith(pid + "-"):
+                os.remove(os.path.join(EVID, "replay", f))
+
     # ---- 1. proofs ----
     bad = pipeline.hygiene_gate()
     ok, thms, assumptions, plog = pipeline.prove(pid)
@@ -178,6 +184,7 @@ def main(argv):
     total_lines = sum(len(c.lines) for c in cases)
     diffs = []
     infra = []
+    extra_distinct = set()
     if "model_error" in res and "model" not in res:
         infra.append(("model does not build/run", res["model_error"]))
     ml = res.get("model", {})
@@ -206,19 +213,35 @@ def main(argv):
             diffs.append({"variant": v, "case": c.cid, "line": i, "op": c.lines[i - 1],
                           "model": ml.get(f"{c.cid}.{i}"), "impl": "CRASH rc=%s" % cr["rc"], "stderr": cr["stderr"]})
 
-    # model-side UB on generated (valid) inputs is itself a disagreement with the premise of the generator
+    # extra stages (floating-point tiers, source scanners, ...): same diff format, with their own history
+    extra_eval = 0
+    extra_samples = []
+    extra_notes = {}
+    for stage in cfg.get("extra_stages", []):
+        r = stage(pid, seed, tier, workdir)
+        diffs += r.get("diffs", [])
+        infra += r.get("infra", [])
+        extra_eval += r.get("evaluations", 0)
+        extra_samples += r.get("samples", [])[:3]
+        extra_notes[stage.__name__] = r.get("notes", {})
+        for t in r.get("nontrivial", []):
+            extra_distinct.add(t)
     # ---- 4. decide ----
     seen_reports = set()
     for d in diffs:
-        c = by_id[d["case"]]
+        c = by_id.get(d["case"])
         kf = match_known(findings, pid, d["op"], d["model"], d["impl"])
         if kf:
             msg = f"KNOWN-FINDING: property={pid} {kf.get('what', kf.get('id', 'listed finding'))}"
             if msg not in known_lines:
                 known_lines.append(msg)
             continue
-        verdict = oracles.judge(pid, c, d)      # 'fails' | 'holds' | 'unknown', explanation
-        sl = slice_case(c.lines, d["line"])
+        if c is None:       # produced by an extra stage, which supplies its own verdict and history
+            verdict = (d.get("oracle", "fails"), d.get("explanation", ""))
+            sl = d.get("history", [d["op"]])
+        else:
+            verdict = oracles.judge(pid, c, d)      # 'fails' | 'holds' | 'unknown', explanation
+            sl = slice_case(c.lines, d["line"])
         info = {"case": d["case"], "line": d["line"], "op": d["op"], "variant": d["variant"],
                 "model_output": d["model"], "implementation_output": d["impl"],
                 "history": sl, "oracle": verdict[0], "oracle_explanation": verdict[1],
@@ -246,7 +269,7 @@ def main(argv):
 
     # ---- 5. evidence ----
     nontriv = cfg.get("nontrivial", lambda t: True)
-    distinct = set()
+    distinct = set(extra_distinct)
     opcount = {}
     for c in cases:
         for t in c.lines:
@@ -268,10 +291,11 @@ def main(argv):
             "checker_cmd": f"make -C coq Properties_{pid}.vo && coqc -Q coq BSpl coq/Properties_{pid}.v  (full .vo build, Print Assumptions under every theorem)",
             "trusted_base": TRUSTED_BASE + cfg.get("trusted_extra", []),
             "theorems": thms, "assumptions": assumptions,
-            "evaluations": total_lines * max(1, len(variants)),
+            "evaluations": total_lines * max(1, len(variants)) + extra_eval,
+            "extra_stages": extra_notes,
             "distinct_nontrivial": len(distinct),
             "rule": cfg.get("rule", ""),
-            "samples": samples,
+            "samples": samples + extra_samples,
             "exhaustive": bool(cfg.get("exhaustive", False)),
             "cases": len(cases), "operations_per_kind": opcount, "model_outcome_kinds": outcome_kinds,
             "variants": variants, "repo": REPO,
